@@ -298,15 +298,16 @@ func (p HPath) String() string {
 }
 
 type HOp struct {
-	Kind string  `json:"kind"` // assign-lit | assign-path | opassign | incdec | read | call | forin-set | forin-rebind | insert-scalar
-	T    HPath   `json:"t"`
-	Lit  string  `json:"lit,omitempty"` // JSON text of a literal (assign-lit, call argument)
-	Src  *HPath  `json:"src,omitempty"` // assign-path
-	Op   string  `json:"op,omitempty"`  // opassign: + - * ; incdec: pre++ post++ pre-- post--
-	Num  float64 `json:"num,omitempty"` // opassign operand
-	Fn   string  `json:"fn,omitempty"`  // call: setk | seti | repl | incp
-	Key  string  `json:"key,omitempty"` // call setk / forin-set key
-	Idx  int     `json:"idx,omitempty"` // call seti index
+	Kind string   `json:"kind"` // assign-lit | assign-path | opassign | incdec | read | call | forin-set | forin-rebind | insert-scalar
+	T    HPath    `json:"t"`
+	Lit  string   `json:"lit,omitempty"`  // JSON text of a literal (assign-lit, call argument)
+	Src  *HPath   `json:"src,omitempty"`  // assign-path
+	Op   string   `json:"op,omitempty"`   // opassign: + - * ; incdec: pre++ post++ pre-- post--
+	Num  float64  `json:"num,omitempty"`  // opassign operand
+	Fn   string   `json:"fn,omitempty"`   // call: setk | seti | repl | incp
+	Key  string   `json:"key,omitempty"`  // call setk / forin-set key
+	Keys []string `json:"keys,omitempty"` // pluck
+	Idx  int      `json:"idx,omitempty"`  // call seti index
 }
 
 // literal JSON text -> jqawk literal text (JSON syntax is valid jqawk syntax for our literals)
@@ -323,6 +324,10 @@ function incp(n) { n++
  n += 10
  return n }
 function pair(pa, pb) { return [pa, pb] }
+function scratch(sa, x, y, z) { x = [sa]
+ y = 5
+ z++
+ return [x, y, z] }
 `
 
 // Render the statement(s) for an op. Reads print "R" lines themselves.
@@ -370,6 +375,15 @@ func (op *HOp) render() string {
 		return fmt.Sprintf("%s = [%s, %s = %s, %s]", op.T.String(), op.Src.String(), op.Src.String(), litText(op.Lit), op.Src.String())
 	case "arg-alias":
 		return fmt.Sprintf("print \"R\", [pair(%s, %s += 1)]", op.Src.String(), op.Src.String())
+	case "scratch-call":
+		// fewer arguments than parameters; the omitted parameters are named like the caller's variables x, y, z
+		return fmt.Sprintf("print \"R\", [scratch(%s)]", litText(op.Lit))
+	case "pluck":
+		keys := make([]string, len(op.Keys))
+		for i, k := range op.Keys {
+			keys[i] = strconv.Quote(k)
+		}
+		return op.T.String() + " = " + op.Src.String() + ".pluck(" + strings.Join(keys, ", ") + ")"
 	case "forin-incr":
 		return fmt.Sprintf("for (fe in %s) { fe%s }", op.T.String(), op.Op)
 	case "forin-kv-incr":
@@ -876,6 +890,42 @@ func (h *Heap) apply(op *HOp) (string, error) {
 		}
 		h.cell(op.Src.Base).V = hNum(src.Num + 1)
 		return "[[" + fmtNum(src.Num) + "," + fmtNum(src.Num+1) + "]]", nil
+	case "scratch-call":
+		r := ScanStream([]byte(op.Lit))
+		if r.Status != RefClean || len(r.Values) != 1 {
+			return "", errUnsupported{"bad literal"}
+		}
+		lit := fromJVal(r.Values[0].V)
+		// the caller's x, y, z are untouched; the callee's omitted parameters start as null
+		return "[[[" + lit.canon() + "],5,1]]", nil
+	case "pluck":
+		src, err := h.readPath(*op.Src)
+		if err != nil {
+			return "", err
+		}
+		if src.K != 'o' {
+			return "", errUnsupported{"pluck needs an object"}
+		}
+		if err := h.dryRun(op); err != nil {
+			return "", err
+		}
+		no := &HObj{M: map[string]*HCell{}}
+		for _, k := range op.Keys {
+			if heapMethodNames[k] {
+				return "", errUnsupported{"method-named key"}
+			}
+			if m, ok := src.Obj.M[k]; ok {
+				no.M[k] = &HCell{V: m.V} // a new cell: scalars copied, containers shared
+			} else {
+				no.M[k] = &HCell{V: hNull()}
+			}
+		}
+		c, err := h.resolveForWrite(op.T)
+		if err != nil {
+			return "", err
+		}
+		c.V, c.absent = HV{K: 'o', Obj: no}, false
+		return "", nil
 	case "forin-incr", "forin-kv-incr":
 		v, err := h.readPath(op.T)
 		if err != nil {
@@ -1313,7 +1363,17 @@ func genHeapCase(t *Tape, maxOps int) *HeapCase {
 	n := 3 + t.Draw(maxOps)
 	for tries := 0; len(c.Ops) < n && tries < n*8; tries++ {
 		var op HOp
-		switch t.Weighted(6, 6, 3, 3, 5, 3, 1, 1, 1, 2, 1, 1, 1, 1) {
+		switch t.Weighted(6, 6, 3, 3, 5, 3, 1, 1, 1, 2, 1, 1, 1, 1, 1, 2) {
+		case 14:
+			op = HOp{Kind: "scratch-call", Lit: heapScalarLits[t.Draw(len(heapScalarLits))]}
+		case 15:
+			src := genHeapPath(t, h, c.Vars, false)
+			nk := 1 + t.Draw(3)
+			var keys []string
+			for k := 0; k < nk; k++ {
+				keys = append(keys, heapKeys[t.Draw(len(heapKeys))])
+			}
+			op = HOp{Kind: "pluck", T: genHeapPath(t, h, c.Vars, true), Src: &src, Keys: keys}
 		case 9:
 			src := genHeapPath(t, h, c.Vars, true)
 			op = HOp{Kind: "chain-assign", T: genHeapPath(t, h, c.Vars, true), Src: &src, Lit: heapScalarLits[t.Draw(len(heapScalarLits))]}
@@ -1471,6 +1531,58 @@ func (h *Heap) dryRun(op *HOp) error {
 			return errUnsupported{"order-dependent chain assignment"}
 		}
 		return h.prevalidateWrite(op.T)
+	case "pluck":
+		src, err := h.readPath(*op.Src)
+		if err != nil {
+			return err
+		}
+		if src.K != 'o' {
+			return errUnsupported{"pluck needs an object"}
+		}
+		if err := h.prevalidateWrite(op.T); err != nil {
+			return err
+		}
+		// the new object shares the source's container members: storing it below one of them would be a cycle
+		seenA, seenO := map[*HArr]bool{}, map[*HObj]bool{}
+		for _, k := range op.Keys {
+			if heapMethodNames[k] {
+				return errUnsupported{"method-named key"}
+			}
+			if m, ok := src.Obj.M[k]; ok {
+				reach(m.V, seenA, seenO)
+			}
+		}
+		v := h.cell(op.T.Base).V
+		for _, st := range op.T.Steps {
+			switch v.K {
+			case 'a':
+				if seenA[v.Arr] {
+					return errUnsupported{"cycle"}
+				}
+				idx := st.Idx
+				if idx < 0 {
+					idx += len(v.Arr.Items)
+				}
+				if !st.IsIdx || idx < 0 || idx >= len(v.Arr.Items) {
+					return nil
+				}
+				v = v.Arr.Items[idx].V
+			case 'o':
+				if seenO[v.Obj] {
+					return errUnsupported{"cycle"}
+				}
+				m, ok := v.Obj.M[st.Key]
+				if st.IsIdx || !ok {
+					return nil
+				}
+				v = m.V
+			default:
+				return nil
+			}
+		}
+		return nil
+	case "scratch-call":
+		return nil
 	case "lit-alias", "arg-alias", "forin-incr", "forin-kv-incr":
 		// cheap to decide by running it on a throw-away heap built from the same history is not available here:
 		// these kinds validate all their preconditions before mutating, so apply itself is the dry run
